@@ -31,6 +31,8 @@ ReprBound(e) == IF e.path = "reject" /\ e.entry # "is" THEN 2 * (1 + Nodes(e.h))
 Slack(e) == IF e.path = "reject" /\ e.entry # "is" THEN Nodes(e.h) ELSE 0
 Allowed(e) ==
   /\ e.bad = 0                                        \* C10: no forbidden operation
+  /\ e.other = 0                                      \* C10: no user code outside the read-only protocol the property
+                                                      \*      lists (__bool__, __contains__, __hash__, ... of the subject)
   /\ e.mutated = FALSE                                \* C10: subject as it was found
   /\ e.rd <= Passes(e) * (ReadBound(e.h) + Slack(e))  \* C09: items read
   /\ e.ln <= Passes(e) * LenBound(e.h) + 2
